@@ -59,7 +59,9 @@ def run(ctx):
     reproduced = sum(1 for x in lres if not x.get('ok') and PATTERN in (x.get('patterns') or []))
     ctx.extra_cov['lead'] = {'tlc_trace_len': len(lead.trace), 'replayed_concretisations': len(lcases),
                              'reproduced_on_real_engine': reproduced}
-    if reproduced == 0 and not any(x.get('kind') == 'infra' for x in lres):
+    # (a lead replay that fails in some other way than the known pattern is already absorbed as a divergence and is
+    # reported as a VIOLATION by finish(); only an all-clean lead replay means the model is out of step with the code)
+    if reproduced == 0 and all(x.get('ok') for x in lres):
         raise vlib.Inconclusive('the TLC counterexample of NoResurrection (delete inside the snapshot window) does not reproduce on the '
                                 'real engine: the model is wrong about the code (or F1 was repaired: update TSMEngine.tla DeleteCache)')
 
